@@ -21,6 +21,7 @@ structure DS where
   node : List Nat := []
   everPut : List (Nat × String) := []   -- (key, len:digest) of every accepted put, newest first
   prevRadius : Nat := maxRadius
+  prevN : Option Nat := none            -- number of items the implementation reported last
   opened : Bool := false
 
 def hex64 (n : Nat) : String := hexNat n 64
@@ -59,15 +60,15 @@ def keysOf (prop : String) : List String :=
   else ["n", "held", "persisted", "radius", "maxkept", "dropped", "mindropped"]
 
 def clausesOf (prop : String) : List String :=
-  if prop == "C04" then ["get_only_put", "get_returns_stored_until_pruned", "returned_bytes_stable", "put_error"]
+  if prop == "C04" then ["get_only_put", "get_returns_stored_until_pruned", "returned_bytes_stable", "put_error", "pruned_item_stays_pruned"]
   else if prop == "C05" then ["counter_ge_held", "held_le_cap", "prune_frees_5pct", "farthest_first", "put_error", "counter_ge_held_concurrent",
     "counter_ge_held_put_during_prune_sync", "put_returns"]
   else if prop == "C06" then ["retained_within_radius", "radius_antitone", "refusal_exact", "radius_changes_only_by_own_prune",
-    "radius_only_shrinks_in_both_byte_orders"]
+    "radius_only_shrinks_in_both_byte_orders", "pruned_item_stays_pruned"]
   else if prop == "C17" then ["open_radius_max_when_empty", "counter_ge_held", "open_radius_max_unless_over_95pct"]
   else ["get_only_put", "get_returns_stored_until_pruned", "returned_bytes_stable", "put_error", "counter_ge_held", "held_le_cap", "prune_frees_5pct",
         "farthest_first", "retained_within_radius", "radius_antitone", "refusal_exact", "open_radius_max_when_empty", "radius_changes_only_by_own_prune",
-        "counter_ge_held_put_during_prune_sync", "put_returns", "radius_only_shrinks_in_both_byte_orders", "open_radius_max_unless_over_95pct"]
+        "counter_ge_held_put_during_prune_sync", "put_returns", "radius_only_shrinks_in_both_byte_orders", "open_radius_max_unless_over_95pct", "pruned_item_stays_pruned"]
 
 def stepAll (d : DS) (toks : List String) (impl : String) : DS × Res :=
   let it := words impl
@@ -75,7 +76,7 @@ def stepAll (d : DS) (toks : List String) (impl : String) : DS × Res :=
   | some "open" =>
     let cap := kvNat toks "cap"
     let le := kv toks "endian" != "be"
-    let d' : DS := { st := StX.empty cap, le := le, node := unhex (kv toks "node"), opened := true }
+    let d' : DS := { st := StX.empty cap, le := le, node := unhex (kv toks "node"), opened := true, prevN := some (kvNat it "n") }
     (d', { model := "ok " ++ snap d'.st, tags := ["open"], nontrivial := false })
   | some "put" =>
     let id := unhex (kv toks "id")
@@ -94,13 +95,18 @@ def stepAll (d : DS) (toks : List String) (impl : String) : DS × Res :=
     let mind := kv it "mindropped"
     let maxk := kv it "maxkept"
     let ff := if mind != "-" && mind != "" && maxk != "-" && beVal (unhex mind) ≤ beVal (unhex maxk) then ["farthest_first"] else []
+    -- the set of retained items grows only by an accepted put, by one: an item that was pruned does not come back
+    let back := match d.prevN with
+      | some p => if (kv it "n") != "" && kvNat it "n" > p + (if accepted then 1 else 0) then ["pruned_item_stays_pruned"] else []
+      | none => []
     let minDropped := if r.2 == .ok && dropped > 0 then
         match ((ins x d.st.items).drop r.1.items.length).head? with | some e => hex64 e.be | none => "-"
       else "-"
     let d' := { d with st := r.1, everPut := if r.2 == .ok then (x.be, s!"val={x.len}:{hexNat x.val.toNat 16}") :: d.everPut else d.everPut,
-                       prevRadius := beVal (unhex (kv it "radius")) }
+                       prevRadius := beVal (unhex (kv it "radius")),
+                       prevN := if (kv it "n") != "" then some (kvNat it "n") else d.prevN }
     (d', { model := s!"{res} {snap r.1} dropped={if r.2 == .ok then dropped else 0} mindropped={minDropped}",
-           monitor := mon ++ ff,
+           monitor := mon ++ ff ++ back,
            tags := ["put", res] ++ (if dropped > 0 && r.2 == .ok then ["put-pruned"] else []) ++ (if r.1.radius < d.st.radius then ["radius-shrunk"] else [])
                    ++ (if (get d.st x.be).isSome && r.2 == .ok then ["overwrite"] else []),
            nontrivial := d.st.items.length > 0 })
@@ -134,7 +140,11 @@ def stepAll (d : DS) (toks : List String) (impl : String) : DS × Res :=
       ++ (if maxKept == "-" && radius != maxRadius then ["open_radius_max_when_empty"] else [])
       -- "is the maximum otherwise": at 95 % of the capacity or below the reopened store advertises the maximum radius
       ++ (if kvNat it "persisted" * 20 ≤ d.st.cap * 19 && radius != maxRadius then ["open_radius_max_unless_over_95pct"] else [])
-    ({ d with st := s', prevRadius := radius }, { model := "ok " ++ snap s', monitor := mon, tags := ["reopen"] })
+    let back := match d.prevN with
+      | some p => if (kv it "n") != "" && kvNat it "n" > p then ["pruned_item_stays_pruned"] else []
+      | none => []
+    ({ d with st := s', prevRadius := radius, prevN := if (kv it "n") != "" then some (kvNat it "n") else d.prevN },
+     { model := "ok " ++ snap s', monitor := mon ++ back, tags := ["reopen"] })
   | some "twostore" =>
     -- a second store in the same process that never pruned keeps the maximum radius whatever the first one does, and a
     -- store opened afterwards starts at the maximum
